@@ -101,3 +101,19 @@ Lemma from_timestamp_injective_lemma :
 Proof.
   intros; unfold from_timestamp. lia.
 Qed.
+
+(* The guard "d <> min int64" of add_sub_inverse cannot be dropped: Go's -d wraps
+   for that one duration (-292.47 years, outside the +-292 years the property
+   quantifies over), so t - d is evaluated as t + d there. *)
+Lemma sub_min_duration_lemma :
+  forall t z,
+    dispatch MINUS (VTime t z) (VDur min_int64) = OTime (t + min_int64) z /\
+    dispatch MINUS (VTime t z) (VDur min_int64) <> spec MINUS (VTime t z) (VDur min_int64).
+Proof.
+  intros t z.
+  assert (E : dispatch MINUS (VTime t z) (VDur min_int64) = OTime (t + min_int64) z).
+  { unfold dispatch, binary_method, time_binary; cbn [has_binary orb negb].
+    replace (wrap64 (- min_int64)) with min_int64 by (vm_compute; reflexivity). reflexivity. }
+  split; [exact E|]. rewrite E. cbn [spec]. intros H. injection H as H.
+  assert (X : min_int64 = -9223372036854775808) by reflexivity. lia.
+Qed.
